@@ -42,24 +42,24 @@ type vfE2CChan struct {
 }
 
 type vfE2C struct {
-	n        *NSQD
-	addr     string
-	gate     sync.RWMutex // actors hold RLock while acting; the checker takes Lock
-	stop     int32
-	failMu   sync.Mutex
-	fails    []string
-	chans    []*vfE2CChan
-	ackMu    sync.Mutex
-	acked    map[int]map[int]bool // topic -> seqs
-	nextSeq  int64
-	mtMs     int64
-	hist     map[string]int64
-	histMu   sync.Mutex
-	out      *vfOut
-	nconn    int64
-	finErrs  int64
-	deliv    int64
-	nbusy    int64
+	n       *NSQD
+	addr    string
+	gate    sync.RWMutex // actors hold RLock while acting; the checker takes Lock
+	stop    int32
+	failMu  sync.Mutex
+	fails   []string
+	chans   []*vfE2CChan
+	ackMu   sync.Mutex
+	acked   map[int]map[int]bool // topic -> seqs
+	nextSeq int64
+	mtMs    int64
+	hist    map[string]int64
+	histMu  sync.Mutex
+	out     *vfOut
+	nconn   int64
+	finErrs int64
+	deliv   int64
+	nbusy   int64
 }
 
 func (x *vfE2C) fail(key, format string, a ...interface{}) {
